@@ -16,14 +16,15 @@ RULE = ("seeded documents (vlib/gen.py) + targeted invalidation of 0-3 spots out
         "clones, cleared / n.s. types, cleared names, duplicate sibling names (private assignment), dependencies "
         "naming existing/missing Properties, sub-Section names, int/empty/multi-valued targets, every cardinality "
         "shape, values inconsistent with dtype (private assignment)}; validated as Document, stand-alone Section "
-        "and stand-alone Property; non-trivial = at least one invalidation applied; distinct = hash of (document "
+        "and stand-alone Property; then the same Validation instance run again (run_validation, report) after a Section was added "
+        "and one removed; non-trivial = at least one invalidation applied; distinct = hash of (document "
         "spec without ids, invalidations, target)")
 ASSUMPTIONS = ["rules 400 (terminology), 403 (prototype string check) and 600 (optional) are outside the statement "
                "and ignored", "for a group of k objects sharing an id / a name, exactly k-1 issues on members of "
                "the group are expected; which members is not prescribed",
                "dependency: MUST warn when no sibling Property has that name or the value equals none of its values "
                "(== or text form); MUST NOT when it equals one; several same-named siblings: don't care"]
-REQUIRED_MONITORS = ["issues-exact", "terminates"]
+REQUIRED_MONITORS = ["issues-exact", "terminates", "rerun-exact"]
 
 
 def nodes_of(doc):
@@ -233,6 +234,49 @@ def validate_and_compare(rec, root, what, vexp, case, applied):
             rec.violation("validate/rank-neither-error-nor-warning", repr(e.rank), case)
     for kind in {vm.KIND_OF.get(n) for _, n, _ in reported}:
         rec.count("issue-kinds-seen", str(kind))
+    if what != "property" and case.get("rerun", True):
+        rerun_after_edit(rec, root, res, what, vexp, case, applied)
+
+
+def rerun_after_edit(rec, root, val, what, vexp, case, applied):
+    """The same Validation instance, run again (run_validation, then report) after the tree was edited, reports the
+    issues of the tree as it is now."""
+    import odml
+    import random
+    rng = random.Random("rerun|%s" % core.h([case.get("muts"), case.get("target")]))
+    try:
+        added = odml.Section("rerun_added", "n.s.", parent=root)          # brings a type-unspecified warning
+        odml.Property("rerun_prop", values=[1, 2, 3], val_cardinality=(None, 1), parent=added)   # and a cardinality warning
+        kids = [s for s in list.__iter__(root.__dict__["_sections"]) if s is not added]
+        removed = None
+        if kids and rng.random() < 0.6:
+            removed = rng.choice(kids)
+            root.remove(removed)
+    except Exception as exc:
+        rec.count("rerun", "edit-refused:" + type(exc).__name__)
+        return
+    for how in ("run_validation", "report"):
+        rec.monitor("rerun-exact")
+        try:
+            getattr(val, how)()
+        except Exception as exc:
+            rec.violation("validate:%s/rerun/%s-raised-%s" % (what, how, type(exc).__name__), repr(exc), dict(case, rerun=how))
+            return
+        exp, dontcare = vm.expectations(root)
+        inscope = {id(o) for o in vm.scope(root)}
+        reported = [(id(e.obj), getattr(e.validation_id, "value", e.validation_id), e.rank) for e in val.errors]
+        for oid, no, rank in reported:
+            if oid not in inscope:
+                rec.violation("validate:%s/rerun/issue-on-object-no-longer-in-the-tree" % what, "%s: issue %s" % (how, no),
+                              dict(case, rerun=how))
+        reported = [r for r in reported if r[0] in inscope]
+        vx = [v for v in vexp if v["objs"][0] in inscope]
+        for prob, kind, detail in vm.compare(exp, dontcare, reported, vx):
+            key = "validate:%s/rerun/%s:%s" % (what, prob, kind)
+            if (what, prob, kind) == ("section", "missing", "dup-id"):
+                key = "validate:section/missing:dup-id"     # same mechanism as on the first run (rule registered for Documents only)
+            rec.violation(key, "%s after an edit: %s (invalidations %s)" % (how, detail, applied), dict(case, rerun=how))
+        rec.count("rerun", "%s|%s" % (how, "with-removal" if removed is not None else "addition-only"))
 
 
 def _validate(root):
